@@ -428,4 +428,5 @@ def explain(item):
             'mask_bits': {1: 'mediation: decorator/body of a protected view without an earlier Permits p ctx true',
                           2: 'refusal not followed by 403 handling', 4: 'refusal while rendering an exception view: HTTPForbidden left the app',
                           8: 'granted check not on behalf of the view that ran next', 16: 'HTTPForbidden without a refusal or an application raise',
-                          32: 'policy asked about a permission that protects no view for that context', 64: 'observation outside the vocabulary'}}
+                          32: 'policy asked about a permission that protects no view for that context', 64: 'observation outside the vocabulary',
+                          128: 'the callable of a statement that a later commit overrides (same slot, same predicates) ran'}}
